@@ -175,7 +175,7 @@ theorem pcBlock_length (inp coefs : List Int) (na cb ds : Nat) : (pcBlock inp co
       · simp [hl]
 
 theorem depth_facts {depth : Nat} (hd : Depth depth) :
-    bytesShiftedOf depth ≤ 2 ∧ 1 ≤ depth - 8 * bytesShiftedOf depth ∧ depth - 8 * bytesShiftedOf depth ≤ 31 ∧ 8 * bytesShiftedOf depth ≤ depth := by
+    bytesShiftedOf depth ≤ 2 ∧ 1 ≤ depth - 8 * bytesShiftedOf depth ∧ depth - 8 * bytesShiftedOf depth ≤ 20 ∧ 8 * bytesShiftedOf depth ≤ depth := by
   rcases hd with rfl | rfl | rfl | rfl <;> decide
 
 theorem monoMix_fits {depth : Nat} (hd : Depth depth) (xs : List Int) (hxs : ∀ x ∈ xs, I32 x) :
@@ -326,7 +326,7 @@ theorem decMono_comp {cfg : Config} (hd : Depth cfg.bitDepth) (hmb : cfg.mb = 10
     simp only [Rd.advance, List.drop_left' hshlen]
     simp only [decChan, hag]
     rw [← hpclen]
-    rw [dynDecomp_dynComp _ hcb1 hcb31 pc hpcfit rest _ byteSize (by rw [hpclen]; omega)]
+    rw [dynDecomp_dynComp _ hcb1 (by omega) pc hpcfit rest _ byteSize (by rw [hpclen]; omega)]
     have hrf := rdFields_enc (8 * bytesShiftedOf cfg.bitDepth) (monoShift cfg.bitDepth xs) (monoShift_lt cfg.bitDepth xs)
     rw [hsl, ← hpclen] at hrf
     have hsh : (if bytesShiftedOf cfg.bitDepth ≠ 0 then 8 * bytesShiftedOf cfg.bitDepth * xs.length else 0) =
